@@ -20,7 +20,9 @@ LEVEL = "exploration"
 RULE = ("histories of 120-400 (quick) / up to 2000 (thorough) completed top-level SDK operations of every kind (if_* in "
         "both forms on Future/RegFuture/int, loop, loop_body, foreach, enumerate, loop_until, add, measure into "
         "futures/registers/entries, arrays) on ONE connection with a flush after every k-th operation (k in 1..8), "
-        "plus deep-nesting programs (nesting 5..10, up to the register budget). Non-trivial = the history completed >= "
+        "plus deep-nesting programs (nesting 5..10, up to the register budget)."
+        ' EPR histories include create/recv contexts, fidelity-constrained keeps whose first attempt is rejected (retry loop with clean-up code) and Array.undefine(). '
+        "Non-trivial = the history completed >= "
         "40 operations on one connection and executed at least one body; distinct = distinct (history, script).")
 ASSUMPTIONS = [
     "registers handed to the host by new_register() stay allocated by design and are excluded from the balance",
